@@ -7,6 +7,7 @@ import (
 	"os"
 
 	"github.com/pdfcpu/pdfcpu/pkg/api"
+	"github.com/pdfcpu/pdfcpu/pkg/pdfcpu/model"
 	"verif/harness/lib/h"
 	"verif/harness/lib/proj"
 )
@@ -19,6 +20,12 @@ func main() {
 	switch os.Args[1] {
 	case "layout":
 		layoutCmd()
+	case "roundtrip":
+		roundtripCmd()
+	case "optimize":
+		optimizeCmd()
+	case "valid":
+		validCmd()
 	case "parse": // debugging aid: print the layout record of one file
 		data, err := os.ReadFile(os.Args[2])
 		must(err)
@@ -38,6 +45,33 @@ func main() {
 				must(op.run(in, h.Arg("--out"), cfg.Conf(), w))
 			}
 		}
+	case "obj": // debugging aid: print one object as pdfcpu reads it
+		ctx, err := readCtx(os.Args[2], nil)
+		must(err)
+		for _, a := range os.Args[3:] {
+			var n int
+			fmt.Sscanf(a, "%d", &n)
+			e, ok := ctx.FindTableEntryLight(n)
+			if !ok {
+				fmt.Println(n, "no entry")
+				continue
+			}
+			fmt.Printf("%d free=%v compressed=%v: %.600v\n", n, e.Free, e.Compressed, e.Object)
+		}
+	case "dangle": // debugging aid: dangling references after read+validate, after optimize (in memory), after write
+		f, err := os.Open(os.Args[2])
+		must(err)
+		conf := WCfg{Eol: "LF", Enc: "none"}.Conf()
+		conf.Cmd = model.OPTIMIZE
+		ctx, err := api.ReadValidateAndOptimize(f, conf)
+		must(err)
+		n, _ := danglingRefs(ctx)
+		fmt.Println("after ReadValidateAndOptimize:", n)
+		must(api.WriteContextFile(ctx, os.Args[3]))
+		c2, err := readCtx(os.Args[3], nil)
+		must(err)
+		n, _ = danglingRefs(c2)
+		fmt.Println("after write+read:", n)
 	case "pages": // debugging aid: abstract pages of a file as pdfcpu reads it
 		ps, err := proj.Pages(os.Args[2], nil)
 		must(err)
